@@ -28,7 +28,9 @@ Record case := {
   c_joint : obs (list joint);          (* convert_plan: names and parameters of every slot, or raised *)
   c_joint_text : list string;          (* str(joint action) for every step, escaped *)
   c_seq_final : obs state;             (* library: the extracted actions applied one by one *)
-  c_joint_final : obs state            (* library: apply_actions on the operational actions of every step *)
+  c_joint_final : obs state;           (* library: apply_actions on the operational actions of every step *)
+  c_intact : bool                      (* seen by the driver around convert_plan: the agent list object, the plan file and the
+                                          problem's initial state are as before the call (the model is a pure function) *)
 }.
 
 Definition numtab (c : case) : string -> option float := fun s => lookup s (c_nums c).
@@ -145,8 +147,8 @@ Definition spec_ok_with (rel : jworld -> call -> call -> bool) (c : case) : bool
 Definition spec_ok (c : case) : bool := spec_ok_with non_interfering c.
 
 Definition judge (k : consts) (c : case) : verdict :=
-  {| v_agree := consts_ok k && agree c;
-     v_ok := spec_ok c;
+  {| v_agree := consts_ok k && agree c && c_intact c;
+     v_ok := spec_ok c && c_intact c;
      (* inside the class of D70 everything else must still hold *)
      v_known := known_class c && spec_ok_with effects_compatible c |}.
 
